@@ -36,5 +36,18 @@ func FamilySignature(thorough bool) []*Conv {
 		add("generic_converter_interface", f, "source PFXIn", "PFXOut", "// goverter:converter\ntype PFXGeneric[T any] interface {\n\tConvert(source T) PFXOut\n}\n", nil, nil, "converter interface with type parameters")
 		add("extend_generic", f, "source PFXIn", "PFXOut", "func PFXGen[T any](i T) T { return i }\n", []string{"extend PFXGen"}, nil, "generic extend function")
 	}
+	// custom functions that take the converter interface: a role of its own where a converter value exists (struct
+	// format), an ordinary second source - hence rejected - in function format, whichever setting names the function
+	for _, f := range []string{"struct", "function"} {
+		fail := func(kind string) string {
+			if f == "struct" {
+				return ""
+			}
+			return kind + " function takes the converter interface although the function format has no converter value"
+		}
+		add("mapfunc_takes_converter", f, "source PFXIn", "PFXOut", "func PFXUpperC(c CNAME, name string) string { return name }\n", nil, []string{"map Name | PFXUpperC"}, fail("map|FUNC"))
+		add("default_takes_converter", f, "source PFXIn", "PFXOut", "func PFXNewC(c CNAME, source PFXIn) PFXOut { return PFXOut{} }\n", nil, []string{"default PFXNewC"}, fail("default"))
+		add("extend_takes_converter", f, "source PFXIn", "PFXOut", "func PFXAgeC(c CNAME, i int) int { return i }\n", []string{"extend PFXAgeC"}, nil, fail("extend"))
+	}
 	return out
 }
